@@ -295,6 +295,8 @@ fn denom_s(d: u128) -> String {
         8 => "weth".to_string(),
         9 => "axl".to_string(),
         10 => "usdc-weth".to_string(),
+        // a denom that is denom 0 with a DIGIT in front: "15uaura" reads as 15 of uaura and as 1 of 5uaura
+        11 => "5uaura".to_string(),
         _ => format!("denom{}", d),
     }
 }
